@@ -38,9 +38,14 @@ def count_range(P, b, names, summaries, cache=None):
                 c_lo += summaries[nm][0]
                 c_hi += summaries[nm][1]
         sh = ordrules.ret_shape(pi)
-        g = groups.setdefault(sh, [c_lo, c_hi])
-        g[0] = min(g[0], c_lo)
-        g[1] = max(g[1], c_hi)
+        # a result whose variant is not decided on the path (`Some(r.map(f))`: Ok or Err) counts for each shape it may have
+        shs = [sh]
+        if "Ok|Err" in sh:
+            shs = [sh.replace("Ok|Err", "Ok"), sh.replace("Ok|Err", "Err")]
+        for sh_ in shs:
+            g = groups.setdefault(sh_, [c_lo, c_hi])
+            g[0] = min(g[0], c_lo)
+            g[1] = max(g[1], c_hi)
     return groups
 
 
